@@ -35,12 +35,29 @@ class IntrospectablePass(object):
         self._namespace.walk(self._introspectable_alias_analysis)
         self._namespace.walk(self._propagate_callable_skips)
         self._namespace.walk(self._analyze_node)
-        self._namespace.walk(self._introspectable_callable_analysis)
-        self._namespace.walk(self._introspectable_callable_analysis)
+        # Marking a callable or an alias as not introspectable can make the
+        # aliases and callables that use it not introspectable in turn, in
+        # any declaration order; repeat until nothing changes any more.
+        while True:
+            before = self._count_introspectable()
+            self._namespace.walk(self._introspectable_alias_analysis)
+            self._namespace.walk(self._introspectable_callable_analysis)
+            if self._count_introspectable() == before:
+                break
         self._namespace.walk(self._introspectable_property_analysis)
         self._namespace.walk(self._introspectable_pass3)
         self._namespace.walk(self._remove_non_reachable_backcompat_copies)
         self._namespace.walk(self._introspectable_symbol_collisions)
+
+    def _count_introspectable(self):
+        count = [0]
+
+        def visit(obj, stack):
+            if obj.introspectable:
+                count[0] += 1
+            return True
+        self._namespace.walk(visit)
+        return count[0]
 
     def _parameter_warning(self, parent, param, text, position=None):
         # Suppress VFunctions and Callbacks warnings for now
